@@ -113,6 +113,9 @@ func c20sRun(t *testing.T, sc c20sScenario, c *vsched.Chooser) (out vsched.Outco
 		if s.Deadlock || s.Livelock {
 			v = append(v, vsched.Fail("stream-deadlock-or-livelock", "blocked: %v", s.Blocked))
 		}
+		for _, tp := range s.ThreadPanics {
+			v = append(v, vsched.Fail("stream-panic-in-thread", "%s", tp))
+		}
 		drain("final")
 		drain("final2")
 		got := map[c20sEv]int{}
